@@ -244,7 +244,8 @@ class R(object):
 
     def comment_line(self):
         self.feats.add('comment-line')
-        return self.ws(0) + '#' + self.draw(st.text(alphabet='abc x,;{}"=', max_size=8).filter(lambda t: t.count('"') % 2 == 0))
+        # a line that is a comment from its first non-blank character on may hold anything, further # marks and unpaired quotes included
+        return self.ws(0) + '#' + self.draw(st.text(alphabet='abc x,;{}"=#', max_size=8))
 
     def row_line(self, t, r, force_quote=False):
         ndb = 0
